@@ -125,6 +125,9 @@ def run(ck, F):
     # compare Transfer values, so that equality must hold exactly for transfers spelled alike (however each was obtained)
     import eqrule as _eqrule
     _eqrule.check_equalities(ck, F, 'C01')
+    # `the same node no matter what was built in between`: the sequences the tables are keyed on are not reordered after the fact
+    import c02 as _c02
+    _c02.operand_order_rule(ck, F, 'C01')
     import c05 as _c05
     _c05.const_handles(ck, F, 'C01', only=None)
     # the tables the types are unified in find what they hold only as long as they stay valid search trees: an entry cut off by a wrong rotation is
